@@ -94,6 +94,99 @@ theorem unbounded_cert_sound (lp : LP K) (x r : List K) (h : checkUnbounded lp x
   have h2 : dot lp.obj x - M ≤ |dot lp.obj x - M| := le_abs_self _
   nlinarith
 
+/-! ### mixed-integer problems: enumeration of the integer box, every leaf certified -/
+
+/-- an exactly accepted point is a feasible point of the mixed-integer problem (`checkPoint_sound` of C04 at
+tolerance 0). -/
+theorem checkPoint_sound' (p : Prob K) (x : List K) (h : checkPoint p x (ExactField.ofInt 0) = true) :
+    ProbFeasible p x := by
+  unfold checkPoint at h
+  simp only [Bool.and_eq_true, List.all_eq_true, decide_eq_true_eq, ef_ofInt, Int.cast_zero] at h
+  exact ⟨fun r hr => ⟨(h.1 r hr).1, rowHolds_sound (h.1 r hr).2⟩, domsHold_sound x p.doms h.2⟩
+
+/-- MILP optimum: `x` satisfies the problem exactly (rows, bounds, integrality, 0/1) and no point of the problem has a
+smaller objective (in the minimisation form `relax.obj`: `obj` for `min`, `−obj` for `max`, `0` for `satisfy`). -/
+theorem milp_optimal_cert_sound (p : Prob K) (x : List K) (certs : List (LeafCert K))
+    (h : checkMilpOptimal p x certs = true) :
+    ProbFeasible p x ∧ ∀ x', ProbFeasible p x' → dot p.relax.obj x ≤ dot p.relax.obj x' := by
+  unfold checkMilpOptimal at h
+  simp only [Bool.and_eq_true, decide_eq_true_eq] at h
+  obtain ⟨⟨_, hpt⟩, hleaves⟩ := h
+  have hfeas : ProbFeasible p x := by
+    exact checkPoint_sound' p x hpt
+  refine ⟨hfeas, fun x' hx' => ?_⟩
+  obtain ⟨leaf, hleaf, hlp⟩ := probFeasible_leaf hx'
+  obtain ⟨c, hc⟩ := checkLeaves_mem _ _ hleaves leaf hleaf
+  cases c with
+  | infeasible ic =>
+    exact absurd ⟨x', hlp⟩ (infeasible_cert_sound _ ic hc)
+  | bound y =>
+    simp only [checkLeaf, checkLowerBound] at hc
+    cases hd : dualBound (p.relax.fix leaf).obj (p.relax.fix leaf).rows (p.relax.fix leaf).bnds y with
+    | none => simp [hd] at hc
+    | some v =>
+      simp [hd] at hc
+      exact le_trans hc (weak_duality (p.relax.fix leaf) y x' v hd hlp)
+
+/-- MILP infeasible: every leaf of the integer box is certified empty, so the problem has no point. -/
+theorem milp_infeasible_cert_sound (p : Prob K) (certs : List (InfeasCert K))
+    (h : checkMilpInfeasible p certs = true) : ¬ ∃ x, ProbFeasible p x := by
+  rintro ⟨x, hx⟩
+  obtain ⟨leaf, hleaf, hlp⟩ := probFeasible_leaf hx
+  unfold checkMilpInfeasible at h
+  have key : ∀ (ls : List (List (Option Int))) (cs : List (InfeasCert K)),
+      checkMilpInfeasible.go p ls cs = true → ∀ l ∈ ls, ∃ c, checkInfeasible (p.relax.fix l) c = true := by
+    intro ls
+    induction ls with
+    | nil => intro cs _ l hl; simp at hl
+    | cons l ls ih =>
+      intro cs hgo l' hl'
+      cases cs with
+      | nil => simp [checkMilpInfeasible.go] at hgo
+      | cons c cs =>
+        simp only [checkMilpInfeasible.go, Bool.and_eq_true] at hgo
+        rcases List.mem_cons.mp hl' with rfl | hm
+        · exact ⟨c, hgo.1⟩
+        · exact ih cs hgo.2 l' hm
+  obtain ⟨c, hc⟩ := key _ _ h leaf hleaf
+  exact infeasible_cert_sound _ c hc ⟨x, hlp⟩
+
+/-- MILP unbounded: a point of the problem and a ray of the relaxation (which cannot move the bounded integer
+variables) give points of the problem with arbitrarily small objective. -/
+theorem milp_unbounded_cert_sound (p : Prob K) (x r : List K) (h : checkMilpUnbounded p x r = true) :
+    ProbFeasible p x ∧ ∀ M : K, ∃ x', ProbFeasible p x' ∧ dot p.relax.obj x' < M := by
+  unfold checkMilpUnbounded at h
+  simp only [Bool.and_eq_true] at h
+  obtain ⟨hpt, hub⟩ := h
+  have hfeas : ProbFeasible p x := checkPoint_sound' p x hpt
+  refine ⟨hfeas, fun M => ?_⟩
+  -- the LP argument, with the domains (not only the bounds) carried along the ray
+  unfold checkUnbounded at hub
+  simp only [Bool.and_eq_true, decide_eq_true_eq, List.all_eq_true] at hub
+  obtain ⟨⟨⟨⟨⟨_, hlen⟩, hlpf⟩, hrows⟩, hbnds⟩, hneg⟩ := hub
+  have hx := lpFeasible_sound hlpf
+  simp only [ef_lt, ef_ofInt, Int.cast_zero, decide_eq_true_eq] at hneg
+  set g := dot p.relax.obj r with hg
+  have hs : 0 < -g := by linarith
+  let t : K := |dot p.relax.obj x - M| / (-g) + 1
+  have ht : 0 ≤ t := by positivity
+  refine ⟨move x r t, ⟨fun row hrow => ?_, rayBnds_move_doms x r p.doms t ht hbnds hfeas.2⟩, ?_⟩
+  · have hr := rayRow_move ht hlen (hrows row hrow) (hx.1 row hrow)
+    refine ⟨hr.1, ?_⟩
+    have := hr.2
+    unfold RowSat at this
+    unfold RowSatTol
+    cases hrel : row.rel <;> simp [hrel] at this ⊢
+    · exact this
+    · exact this
+    · rw [this]; simp
+  · rw [dot_move _ _ _ _ hlen, ← hg]
+    have h1 : t * (-g) = |dot p.relax.obj x - M| + (-g) := by
+      have hne : -g ≠ 0 := ne_of_gt hs
+      simp only [t]; rw [add_mul, div_mul_cancel₀ _ hne]; ring
+    have h2 : dot p.relax.obj x - M ≤ |dot p.relax.obj x - M| := le_abs_self _
+    nlinarith
+
 /-! ### non-vacuity: the hypotheses are satisfiable (`K = ℚ`) -/
 
 /-- `min x  s.t.  x ≥ 1`, `x` free: optimum at `x = 1` with multiplier `1`. -/
@@ -108,5 +201,13 @@ example : @checkInfeasible ℚ (fieldExact ℚ) ⟨[0], [⟨[1], .le, 0⟩, ⟨[
 /-- `min x`, `x ≤ 0`: the ray `-1` from the point `0`. -/
 example : @checkUnbounded ℚ (fieldExact ℚ) ⟨[1], [⟨[1], .le, 0⟩], [⟨none, none⟩]⟩ [0] [-1] = true := by
   simp [checkUnbounded, lpFeasible, rowHolds, bndsHold, bndHolds, loHolds, hiHolds, rayRow, rayBnds]
+
+/-- `max b`, `b ∈ {0,1}`: the point `b = 1`, and for each of the two leaves a dual bound (no rows: empty multipliers). -/
+example : @checkMilpOptimal ℚ (fieldExact ℚ) ⟨.max, [1], 0, [], [.bool]⟩ [1] [.bound [], .bound []] = true := by
+  have hr : intRange 0 1 = [0, 1] := by decide
+  have hfl : Int.floor ((1 : ℚ) + 1 / 2) = 1 := by
+    rw [Int.floor_eq_iff]; constructor <;> norm_num
+  simp [checkMilpOptimal, checkPoint, domsHold, domHolds, absK, leaves, hr, checkLeaves, checkLeaf, checkLowerBound,
+    LP.fix, Prob.relax, negList, fixBnds, fixBnd, Dom.bnd, dualBound, reduce, bndSum, bndTerm]
 
 end Rooc.Props.C05
